@@ -1,9 +1,9 @@
 SPECIFICATION Spec
 CONSTANTS
-  MaxSegs = 2
+  MaxSegs = 4
   DevTruncateInPlace = FALSE
   DevLoopLexical = FALSE
-  LoopInstance = FALSE
+  LoopInstance = TRUE
 INVARIANT OnlyInside
 INVARIANT Authorised
 INVARIANT NonSuccessLeavesTreeUnchanged
